@@ -189,5 +189,11 @@ def add_texts(ro_text, msg_text):
     """Parse both documents freshly, add, observe."""
     ro = load(ro_text)
     msg = load(msg_text)
-    ro.completed          # read the flag before the merge too (a cached flag must not go stale)
-    return add(ro, msg)
+    done = ro.completed   # read the flag before the merge too (a cached flag must not go stale)
+    # both documented entry points: `ro + msg`, and `msg.merge(ro)` directly (what `+` calls once it has checked that the
+    # running order is not completed - on a completed one only `+` refuses, so the direct call is used on open ones only)
+    import zlib
+    direct = not done and zlib.crc32(msg_text.encode('utf-8', 'surrogatepass')) % 3 == 0
+    out = add(ro, msg, via='merge' if direct else 'add')
+    out['via'] = 'merge' if direct else 'add'
+    return out
